@@ -248,8 +248,13 @@ fn one_run(st: &mut Stats, c: &Case, pseed: u64, sigs: &mut HashSet<u64>, perms:
             }
         }
     }
+    // worker count actually used (the hook events carry it; with workers = 0 the host's own parallelism applies)
+    let used_workers = log.iter().find(|e| e.point == "parallel" || e.point == "sequential").map(|e| e.entries).unwrap_or(c.workers);
+    if c.workers == 0 {
+        st.count(&format!("runs.host_parallelism.workers={used_workers}"));
+    }
     if parallel {
-        for (clause, d) in check_log(&log, ce(s), c.days.max(0), c.workers) {
+        for (clause, d) in check_log(&log, ce(s), c.days.max(0), if c.workers == 0 { used_workers } else { c.workers }) {
             st.violate(&clause, c, json!({"pseed": pseed, "detail": d, "events": ev_json(&log)}));
         }
         let nworkers = log.iter().filter(|e| e.point == "spawn").count();
@@ -439,6 +444,27 @@ pub fn run(ctx: &Ctx, st: &mut Stats) {
         check(ctx, st, &c);
         st.count("runs.long_range_high_latitude_default_policy");
         st.nontrivial_key(hash64(&format!("{:?}", (c.workers, c.days, c.pseed))));
+    }
+    // the host's own parallelism (no override): whatever `available_parallelism()` says under this process's CPU
+    // affinity and environment decides the worker count
+    for k in 0..ctx.pick(12, 400) {
+        if st.extra.contains_key("aborted_after_deadlock") {
+            break;
+        }
+        let c = Case {
+            site: site(&mut r),
+            method: r.int(1, 8) as usize,
+            default_policy: r.chance(0.3),
+            start: d2s(from_ce(r.int(day_lo() as i64, day_hi() as i64 - 1200) as i32)),
+            days: *r.pick(&[0i64, 1, 2, 5, 15, 16, 17, 31, 33, 100, 365, 1000]),
+            workers: 0,
+            threshold: *r.pick(&[0usize, 0, 1, 2, 400]),
+            pseed: ctx.seed * 15_000_017 + ctx.shard * 953 + k * 43 + 1,
+            max_sleep_us: *r.pick(&[0u64, 200]),
+            repeats: 1,
+        };
+        check(ctx, st, &c);
+        st.nontrivial_key(hash64(&format!("host{:?}", (c.days, c.threshold, c.pseed))));
     }
     // medium ranges at 50-62 deg under the default policy with many workers: many partition starts inside the
     // no-twilight season (a per-sweep carried state shows as a dependence on where a partition starts)
